@@ -45,14 +45,30 @@ pub fn run_stream(
         let _ = inst.reset();
         rep.count("streams_on_recycled_instance(reset_after_prefix)");
     }
+    // Half of the streams also change the instance's identity mid-stream in ways the crate promises
+    // are transparent (C05: a clone continues identically; C06: so does a restored copy): at one step
+    // the instance is replaced by its clone, at another by deserialize(serialize(self)).
+    let len = inputs.len();
+    let perturb_at: [usize; 2] = if len % 2 == 0 && len > 4 { [len / 3, (2 * len) / 3 + 1] } else { [usize::MAX, usize::MAX] };
     let with_prefix = |upto: usize| -> serde_json::Value {
         let mut ops: Vec<serde_json::Value> = prefix.iter().map(|x| x.to_json()).collect();
         if !prefix.is_empty() {
             ops.push(json!({"op": "reset"}));
         }
-        ops.extend(inputs[..=upto].iter().map(|x| x.to_json()));
+        for (k, x) in inputs[..=upto].iter().enumerate() {
+            if k == perturb_at[0] {
+                ops.push(json!({"op": "clone_swap"}));
+            }
+            if k == perturb_at[1] {
+                ops.push(json!({"op": "serde_swap"}));
+            }
+            ops.push(x.to_json());
+        }
         serde_json::Value::Array(ops)
     };
+    if perturb_at[0] != usize::MAX {
+        rep.count("streams_with_mid_stream_clone_swap_and_serde_swap");
+    }
     let mut rm = RefModel::new(p);
     let mut js: Judgements = Vec::with_capacity(4);
     let n = p.n();
@@ -60,6 +76,12 @@ pub fn run_stream(
     let mut trace: Vec<serde_json::Value> = Vec::new();
     for (i, x) in inputs.iter().enumerate() {
         st.steps += 1;
+        if i == perturb_at[0] {
+            inst.perturb(0);
+        }
+        if i == perturb_at[1] {
+            inst.perturb(1);
+        }
         let r = rm.push(x);
         let out = match inst.feed(x) {
             Ok(o) => o,
